@@ -143,6 +143,33 @@ let parse_ints (s : string) : int list =
     if body = "" then [] else List.map int_of_string (String.split_on_char ',' body)
   end
 
+(* "cs[v:x|w:?]" style results: entries whose model side ends in ":?" are not compared *)
+let entrywise_match (model : string) (impl : string) : bool =
+  let n = String.length model and m = String.length impl in
+  let has_q = (try ignore (Str.search_forward (Str.regexp_string ":?") model 0); true with Not_found -> false) in
+  if starts_with "cs[" model && impl = "err" && has_q then true (* range touching the first retained version *)
+  else if not (starts_with "cs[" model && starts_with "cs[" impl) || n < 4 || m < 4 then false
+  else begin
+    let a = String.split_on_char '|' (String.sub model 3 (n - 4)) in
+    let b = String.split_on_char '|' (String.sub impl 3 (m - 4)) in
+    List.length a = List.length b
+    && List.for_all2 (fun x y ->
+           x = y
+           || (String.length x > 2 && String.sub x (String.length x - 2) 2 = ":?"
+               && starts_with (String.sub x 0 (String.length x - 1)) y)) a b
+  end
+
+(* crash exploration results: model "CR;<res>" matches impl "cr(ok,n=K);<res>" and "cr(skip,..);<res>" *)
+let crash_match (model : string) (impl : string) : bool =
+  (starts_with "CR;" model || starts_with "FL;" model)
+  && (match String.index_opt impl ';' with
+      | Some i ->
+          let head = String.sub impl 0 i and tail = String.sub impl (i + 1) (String.length impl - i - 1) in
+          (starts_with "cr(ok" head || starts_with "cr(skip" head || starts_with "fl(ok" head || starts_with "fl(skip" head)
+          && (let mt = String.sub model 3 (String.length model - 3) in
+              tail = mt || (mt = "*" && not (starts_with "panic" tail)))
+      | None -> false)
+
 let classify_m1 (st : mstate) (toks : string list) (model : string) (impl : string) : string option =
   let finding = Some "C14-stale-root-key" in
   let tv t = int_of_string (String.sub t 1 (String.length t - 1)) in
@@ -158,6 +185,25 @@ let classify_m1 (st : mstate) (toks : string list) (model : string) (impl : stri
       let n = int_of_string v in
       let first = (match st.forest with (w, _) :: _ -> int_of_z w | [] -> 0) in
       if n < first && List.exists (fun w -> w <= n) (stale_candidates st) then finding else None
+  | [ "changes"; _; _ ] when starts_with "cs[" model && starts_with "cs[" impl ->
+      (* a stale root key makes a deleted version reappear as the first version after a reopen:
+         its change set (and those of the versions up to the true first one) are reported too *)
+      let first = (match st.forest with (w, _) :: _ -> int_of_z w | [] -> 0) in
+      let body x = String.sub x 3 (String.length x - 4) in
+      let ents = String.split_on_char '|' (body impl) in
+      let ver e = (try int_of_string (List.hd (String.split_on_char ':' e)) with _ -> Stdlib.max_int) in
+      let extra = List.filter (fun e -> ver e < first) ents in
+      let rest = List.filter (fun e -> ver e >= first) ents in
+      if extra <> [] && List.exists (fun w -> w <= ver (List.hd extra)) (stale_candidates st)
+         && entrywise_match model ("cs[" ^ String.concat "|" rest ^ "]") then finding else None
+  | ("crash" | "fault") :: o :: _ when starts_with "cr(viol,op=" impl || starts_with "fl(viol,op=" impl ->
+      let has x = (try ignore (Str.search_forward (Str.regexp_string x) impl 0); true with Not_found -> false) in
+      (* a SaveVersion / rollback whose writes are flushed in several physical batches is not
+         crash-atomic; the listed symptoms are the recorded ones, anything else is reported *)
+      if o = "save" && (has "kind=loaderr)" || has "kind=indexahead)") then Some "C05-split-commit"
+      else if o = "save" && starts_with "fl(viol,op=save," impl && (has "kind=reopenerr," || has "kind=reopenmixture,") then Some "C05-split-commit"
+      else if o = "lvfo" && (has "kind=mixture)" || has "kind=loaderr)") then Some "C05-split-rollback"
+      else None
   | [ "avail" ] ->
       let mi = parse_ints model and ii = parse_ints impl in
       let extra = List.filter (fun x -> not (List.mem x mi)) ii in
@@ -209,6 +255,40 @@ let expected_fast (st : mstate) : string =
       Printf.sprintf "af(1.1.0-%d;[%s])" (int_of_z v)
         (String.concat "," (List.map (fun (k, v) -> hex_of_bytes k ^ "=" ^ hex_of_bytes v) l))
 
+(* C15: the net change set of version v against v-1, computed from the model trees: leaves of
+   tree(v) created in v (node version > v-1), and keys of tree(v-1) absent from tree(v). *)
+let rec leaves_with_ver (t : node) (acc : (bytes * bytes * int) list) : (bytes * bytes * int) list =
+  match t with
+  | Leaf (k, v, m) -> (k, v, int_of_z m.ver) :: acc
+  | Inner (_, _, _, _, l, r) -> leaves_with_ver l (leaves_with_ver r acc)
+
+let cmp_bytes (a : bytes) (b : bytes) : int = match bcmp a b with Lt -> -1 | Eq -> 0 | Gt -> 1
+
+let expected_changes (st : mstate) (a : int) (b : int) : string =
+  let forest = List.map (fun (v, r) -> (int_of_z v, r)) st.forest in
+  match forest with
+  | [] -> "*"
+  | (first, _) :: _ ->
+      let latest = List.fold_left (fun _ (v, _) -> v) 0 forest in
+      let a = max a first and b = min b latest in
+      let parts = ref [] in
+      for v = a to b do
+        match List.assoc_opt v forest with
+        | None -> ()
+        | Some r ->
+            let cur = (match r with Some t -> leaves_with_ver t [] | None -> []) in
+            let prev = (match List.assoc_opt (v - 1) forest with Some (Some t) -> leaves_with_ver t [] | _ -> []) in
+            let sets = List.filter (fun (_, _, ver) -> ver > v - 1) cur in
+            let dels = List.filter (fun (k, _, _) -> not (List.exists (fun (k2, _, _) -> cmp_bytes k k2 = 0) cur)) prev in
+            let items = List.map (fun (k, x, _) -> (k, hex_of_bytes k ^ "=" ^ hex_of_bytes x)) sets
+                        @ List.map (fun (k, _, _) -> (k, hex_of_bytes k ^ "-")) dels in
+            let items = List.stable_sort (fun (k1, _) (k2, _) -> cmp_bytes k1 k2) items in
+            (* the property speaks about versions whose predecessor is retained *)
+            if v = first then parts := (string_of_int v ^ ":?") :: !parts
+            else parts := (string_of_int v ^ ":" ^ String.concat "," (List.map snd items)) :: !parts
+      done;
+      "cs[" ^ String.concat "|" (List.rev !parts) ^ "]"
+
 let cfg_fast (params : string list) : bool =
   let cfg = header_param params "cfg" "" in
   List.mem "fast=true" (String.split_on_char ',' cfg)
@@ -218,18 +298,74 @@ let make_m1 (params : string list) : machine =
   let st = ref (if iv = "-" then m_init Z0 false else m_init (z_of_string iv) true) in
   let prev = ref !st in
   let fast = ref (cfg_fast params) in
-  { step = (fun toks ->
-        prev := !st;
+  let rec step1 (toks : string list) : string =
         match toks with
+        | "fault" :: rest -> "FL;" ^ step1 rest
+        | "crash" :: rest -> "CR;" ^ step1 rest
         | [ "reopenat"; v; f ] ->
             fast := (f = "fast=true");
             let s1, x1 = m_step !st OReopen in
             (match x1 with
              | XOk -> let s2, x2 = m_step s1 (OLoad (z_of_string v)) in st := s2; show_out x2
              | _ -> st := s1; "err")
+        | [ "changes"; a; b ] -> expected_changes !st (int_of_string a) (int_of_string b)
+        | [ "replaycs" ] | [ "replaycs"; _ ] -> "ok"
+        | [ "savecs"; pairs ] ->
+            (* SaveChangeSet: refuse when there are uncommitted changes, apply pair by pair (a
+               removal of a missing key is an error and leaves the earlier pairs applied), commit *)
+            let dirty = (match !st.root with Some t -> int_of_z (node_meta t).ver = 0 | None -> false) in
+            if dirty then "err"
+            else begin
+              let ps = if pairs = "." then [] else String.split_on_char ',' pairs in
+              let ok = ref true in
+              List.iter (fun p ->
+                  if !ok then begin
+                    let n = String.length p in
+                    if n > 0 && p.[n - 1] = '-' then begin
+                      let s', x = m_step !st (ORemove (bytes_of_tok (String.sub p 0 (n - 1)))) in
+                      (match x with XPair (_, XBool true) -> st := s' | _ -> ok := false)
+                    end else begin
+                      match String.split_on_char '=' p with
+                      | [ k; v ] -> let s', _ = m_step !st (OSet (bytes_of_tok k, bytes_of_tok (if v = "" then "." else v))) in st := s'
+                      | _ -> failwith "bad pair"
+                    end
+                  end) ps;
+              if not !ok then "err"
+              else begin
+                let s', x = m_step !st OSave in
+                st := s';
+                match x with XPair (_, v) -> show_out v | _ -> "err"
+              end
+            end
         | [ "audit"; "nodes" ] -> expected_nodes !st
         | [ "audit"; "fast" ] -> if !fast then expected_fast !st else "*"
         | [ "reopen"; f ] when (f = "fast=true" || f = "fast=false") && (fast := (f = "fast=true"); false) -> ""
+        | [ "r"; t; "export" ] ->
+            (* post-order stream of (key, value | -, node version, height) *)
+            if t = "w" then "ex-working"
+            else begin
+              let v = int_of_string (String.sub t 1 (String.length t - 1)) in
+              match List.find_opt (fun (w, _) -> int_of_z w = v) !st.forest with
+              | None -> "err"
+              | Some (_, r) ->
+                  let rec post (n : node) (acc : string list) : string list =
+                    match n with
+                    | Leaf (k, x, m) ->
+                        (Printf.sprintf "%s:%s:%d:0" (hex_of_bytes k) (if x = [] then "." else hex_of_bytes x) (int_of_z m.ver)) :: acc
+                    | Inner (k, h, _, m, l, rr) ->
+                        let acc = post l acc in
+                        let acc = post rr acc in
+                        (Printf.sprintf "%s:-:%d:%d" (hex_of_bytes k) (int_of_z m.ver) (int_of_z h)) :: acc in
+                  let items = (match r with Some n -> List.rev (post n []) | None -> []) in
+                  "ex[" ^ String.concat ";" items ^ "]"
+            end
+        | [ "r"; t; "gproof"; k ] ->
+            let tg = parse_target t in
+            let q r = snd (m_step !st (ORead (tg, r))) in
+            (match q RSize with
+             | XErr -> "err"
+             | XInt z when int_of_z z = 0 -> "*"
+             | _ -> (match q (RGet (bytes_of_tok k)) with XBytes (Some _) -> "pk:mem:t" | _ -> "pk:non:t"))
         | [ "r"; t; "proof"; k ] ->
             (* C03 oracle: the expected kind comes from the model's lookup; verification and the
                negative checks are done by the real ICS-23 verifier inside the harness *)
@@ -246,7 +382,8 @@ let make_m1 (params : string list) : machine =
             let o = parse_op toks in
             let s', x = m_step !st o in
             st := s';
-            show_out x);
+            show_out x in
+  { step = (fun toks -> prev := !st; step1 toks);
     classify = (fun toks model impl ->
         match toks with
         | [ "r"; t; "proof"; k ] ->
@@ -312,7 +449,8 @@ let () =
              (match expected with
               | None -> if echo then Printf.printf "%s => %s\n" opstr got else incr skipped
               | Some e ->
-                  if e <> got && not (got = "*" && not (starts_with "panic" e)) then begin
+                  if e <> got && not (got = "*" && not (starts_with "panic" e)) && not (entrywise_match got e)
+                     && not (crash_match got e) then begin
                     match (if List.length !known = 0 then None else m.classify (split_ws opstr) got e) with
                     | Some f when List.mem f !known ->
                         incr nknown;
